@@ -644,6 +644,14 @@ def _strip_tail_breaks(stmts):
     return None
 
 
+def _eval_order_simple(e):
+    """sub-expressions of an expression in evaluation order (operands before the operation is irrelevant here: parents are yielded first,
+    callers only ask what is met *before* a given leaf)"""
+    yield e
+    for c in ast.iter_child_nodes(e):
+        yield from _eval_order_simple(c)
+
+
 def _as_expression(body: list):
     """A body made only of `return e` and `if t: <such a body> [else: <such a body>]` statements, as
     one expression (`e1 if t else e2`); None if it has any other statement or can fall off its end."""
@@ -652,6 +660,30 @@ def _as_expression(body: list):
     st = body[0]
     if isinstance(st, ast.Return):
         return st.value if st.value is not None else ast.Constant(value=None)
+    if isinstance(st, ast.Assign) and len(st.targets) == 1 and isinstance(st.targets[0], ast.Name) and len(body) >= 2 and isinstance(body[1], ast.Return) and body[1].value is not None:
+        # `x = E; return f(x)` with x read once and nothing that can run code evaluated before that read: `return f(E)`
+        nm = st.targets[0].id
+        uses = [n for n in ast.walk(body[1].value) if isinstance(n, ast.Name) and n.id == nm]
+        later = [n for b_ in body[2:] for n in ast.walk(b_) if isinstance(n, ast.Name) and n.id == nm]
+        if len(uses) == 1 and not later and not any(isinstance(n, (ast.Lambda, ast.GeneratorExp, ast.ListComp, ast.SetComp, ast.DictComp)) for n in ast.walk(body[1].value)):
+            before_ok = True
+            for n in _eval_order_simple(body[1].value):
+                if n is uses[0]:
+                    break
+                if isinstance(n, (ast.Call, ast.Subscript, ast.Attribute, ast.BinOp, ast.Compare, ast.Await, ast.Yield, ast.YieldFrom)) and not any(u is uses[0] for u in ast.walk(n)):
+                    before_ok = False
+                    break
+            if before_ok:
+                idx = next(i for i, n in enumerate(ast.walk(body[1].value)) if n is uses[0])
+                val = copy.deepcopy(body[1].value)  # never rewrite the helper itself
+                target = list(ast.walk(val))[idx]
+
+                class _S(ast.NodeTransformer):
+                    def visit_Name(self, n):
+                        return copy.deepcopy(st.value) if n is target else n
+                new_ret = ast.copy_location(ast.Return(value=_S().visit(val)), body[1])
+                return _as_expression([new_ret] + list(body[2:]))
+        return None
     if isinstance(st, ast.If):
         a = _as_expression(st.body)
         b = _as_expression(list(st.orelse) + list(body[1:]))
@@ -690,6 +722,8 @@ class _ExprInliner(ast.NodeTransformer):
         if b is None:
             return n
         subst, prologue, renames = b
+        if renames and not ({x.id for x in ast.walk(expr) if isinstance(x, ast.Name)} & set(renames)):
+            renames = {}  # the helper's locals were folded away when its body was read as one expression
         if prologue or renames:
             return n  # needs statements: not possible inside an expression
         e = _Subst(subst, {}).visit(copy.deepcopy(expr))
@@ -3446,6 +3480,54 @@ class _CanonNot(ast.NodeTransformer):
             if pos is not None:
                 self.changed = True
                 return ast.copy_location(ast.If(test=pos, body=n.orelse, orelse=n.body), n)
+        return n
+
+    def visit_Delete(self, n):
+        # `del xs[-1]` -> `xs.pop()` (same effect on a list; the pinned tree pops)
+        if len(n.targets) == 1 and isinstance(n.targets[0], ast.Subscript):
+            sl = n.targets[0].slice
+            if isinstance(sl, ast.UnaryOp) and isinstance(sl.op, ast.USub) and isinstance(sl.operand, ast.Constant) and sl.operand.value == 1:
+                self.changed = True
+                v = n.targets[0].value
+                return ast.copy_location(ast.Expr(value=ast.Call(func=ast.Attribute(value=v, attr="pop", ctx=ast.Load()), args=[], keywords=[])), n)
+        return n
+
+    def visit_Compare(self, n):
+        self.generic_visit(n)
+        # a literal on the left of a symmetric comparison: `"x" == e` -> `e == "x"` (the pinned tree writes the literal on the right)
+        if len(n.ops) == 1 and isinstance(n.ops[0], (ast.Eq, ast.NotEq)) and isinstance(n.left, ast.Constant) and not isinstance(n.comparators[0], ast.Constant):
+            self.changed = True
+            return ast.copy_location(ast.Compare(left=n.comparators[0], ops=n.ops, comparators=[n.left]), n)
+        return n
+
+    def visit_Subscript(self, n):
+        self.generic_visit(n)
+        # `x[0:i]` -> `x[:i]` (the pinned tree has no explicit zero lower bound)
+        sl = n.slice
+        if isinstance(sl, ast.Slice) and isinstance(sl.lower, ast.Constant) and sl.lower.value == 0 and type(sl.lower.value) is int and sl.step is None:
+            self.changed = True
+            sl.lower = None
+        return n
+
+    def visit_For(self, n):
+        self.generic_visit(n)
+        # `for i in range(len(xs)): v = xs[i]; ...` -> `for i, v in enumerate(xs): ...` when neither xs, i nor v is re-bound / xs mutated in the body
+        it = n.iter
+        if isinstance(n.target, ast.Name) and isinstance(it, ast.Call) and isinstance(it.func, ast.Name) and it.func.id == "range" and len(it.args) == 1 and not it.keywords \
+                and isinstance(it.args[0], ast.Call) and isinstance(it.args[0].func, ast.Name) and it.args[0].func.id == "len" and len(it.args[0].args) == 1 \
+                and isinstance(it.args[0].args[0], ast.Name) and n.body and isinstance(n.body[0], ast.Assign) and len(n.body[0].targets) == 1 and isinstance(n.body[0].targets[0], ast.Name):
+            xs, i, first = it.args[0].args[0].id, n.target.id, n.body[0]
+            v = first.targets[0].id
+            if isinstance(first.value, ast.Subscript) and isinstance(first.value.value, ast.Name) and first.value.value.id == xs and isinstance(first.value.slice, ast.Name) and first.value.slice.id == i and v not in (xs, i):
+                rest = n.body[1:]
+                rebound = any(isinstance(x, ast.Name) and x.id in (xs, i, v) and isinstance(x.ctx, (ast.Store, ast.Del)) for b_ in rest for x in ast.walk(b_))
+                mutated = any(isinstance(x, ast.Call) and isinstance(x.func, ast.Attribute) and isinstance(x.func.value, ast.Name) and x.func.value.id == xs for b_ in rest for x in ast.walk(b_)) or \
+                    any(isinstance(x, ast.Subscript) and isinstance(x.ctx, (ast.Store, ast.Del)) and isinstance(x.value, ast.Name) and x.value.id == xs for b_ in rest for x in ast.walk(b_))
+                if not rebound and not mutated and rest:
+                    self.changed = True
+                    n.target = ast.copy_location(ast.Tuple(elts=[ast.Name(id=i, ctx=ast.Store()), ast.Name(id=v, ctx=ast.Store())], ctx=ast.Store()), n.target)
+                    n.iter = ast.copy_location(ast.Call(func=ast.Name(id="enumerate", ctx=ast.Load()), args=[ast.Name(id=xs, ctx=ast.Load())], keywords=[]), it)
+                    n.body = rest
         return n
 
     def _negative(self, e) -> bool:
